@@ -319,6 +319,12 @@ class Gen(object):
         t.start_clocktime = r.choice([0, 0, 3600 * 6, 3600 * 13 + 1800, 12 * 3600, 12 * 3600 + 1800, 12 * 3600 + 3599, 1800, 59, 86399,
                                       11 * 3600 + 3599, r.randrange(0, 86400)])     # every hour of the day, noon and midnight hours in particular
         t.statistic = r.choice(['NONE', 'NONE', 'AVERAGED', 'MINIMUM', 'MAXIMUM', 'RANGE'])
+        # the keyword options of [REPORT] (side stream: the main stream stays what it was)
+        import random as _random
+        rr = _random.Random(int(t.duration) * 7 + int(t.start_clocktime) + int(hyd))
+        wn.options.report.status = rr.choice(['NO', 'NO', 'YES', 'FULL'])
+        wn.options.report.summary = rr.choice(['YES', 'YES', 'NO'])
+        wn.options.report.energy = rr.choice(['NO', 'NO', 'YES'])
         h = wn.options.hydraulic
         h.headloss = r.choice(['H-W', 'H-W', 'H-W', 'D-W', 'C-M'])
         h.viscosity = r.choice([1.0, 1.1])
